@@ -17,6 +17,11 @@ def _mk_solver(timeout_ms):
 
 
 _HASQ = {}
+STATE = dict(skip_default_first=False, ematch_wins=0)
+
+
+def reset_state():
+    STATE.update(skip_default_first=False, ematch_wins=0)
 
 
 def has_quant(e):
@@ -69,6 +74,24 @@ def _external(smt2, timeout_s):
         os.unlink(path)
 
 
+def _retry(pc, goal, timeout_ms):
+    """z3's quantifier instantiation is sensitive to the random seed: before giving up (and before the slower
+    external solvers) retry with other seeds and with MBQI off (pure E-matching)."""
+    for seed, mbqi in ((1, False), (7, True), (23, False)):
+        s = z3.Solver()
+        s.set("timeout", timeout_ms)
+        s.set("random_seed", seed)
+        s.set("smt.random_seed", seed)
+        if not mbqi:
+            s.set("smt.mbqi", False)
+        for c in pc:
+            s.add(c)
+        s.add(z3.Not(goal))
+        if s.check() == z3.unsat:
+            return True
+    return False
+
+
 def prove(pc, goal, timeout_ms=None, want_model=True, external=True):
     """Is pc -> goal valid?  Returns dict(verdict=unsat|sat|unknown, backend, ms, model)."""
     timeout_ms = timeout_ms or QUICK_MS
@@ -82,11 +105,30 @@ def prove(pc, goal, timeout_ms=None, want_model=True, external=True):
         s1.add(z3.Not(goal))
         if s1.check() == z3.unsat:
             return dict(verdict="unsat", backend="z3-5.1.0", model=None, ms=(time.time() - t0) * 1000.0)
-    s = _mk_solver(timeout_ms)
+    s = _mk_solver(timeout_ms if STATE["skip_default_first"] is False else min(1500, timeout_ms))
     for c in pc:
         s.add(c)
     s.add(z3.Not(goal))
     r = s.check()
+    if r == z3.unknown and any(has_quant(c) for c in pc):
+        # pure E-matching (MBQI off): fast and stable for quantified invariants where the default strategy wanders; cannot answer sat
+        s2 = _mk_solver(timeout_ms)
+        s2.set("smt.mbqi", False)
+        for c in pc:
+            s2.add(c)
+        s2.add(z3.Not(goal))
+        if s2.check() == z3.unsat:
+            STATE["ematch_wins"] += 1
+            if STATE["ematch_wins"] >= 1:
+                STATE["skip_default_first"] = True   # in this function the default strategy gets a short budget from now on
+            return dict(verdict="unsat", backend="z3-5.1.0 (e-matching)", model=None, ms=(time.time() - t0) * 1000.0)
+        if STATE["skip_default_first"]:
+            # the short-budget default run may have been cut off: give it the full budget before concluding
+            s = _mk_solver(timeout_ms)
+            for c in pc:
+                s.add(c)
+            s.add(z3.Not(goal))
+            r = s.check()
     res = dict(backend="z3-5.1.0", model=None)
     if r == z3.unsat:
         res["verdict"] = "unsat"
@@ -97,6 +139,9 @@ def prove(pc, goal, timeout_ms=None, want_model=True, external=True):
     elif not external:
         res["verdict"] = "unknown"
         res["reason"] = s.reason_unknown()
+    elif _retry(pc, goal, timeout_ms):
+        res["verdict"] = "unsat"
+        res["backend"] = "z3-5.1.0 (reseeded)"
     else:
         v, backend = _external("(set-logic ALL)\n" + s.to_smt2(), max(5, timeout_ms // 1000))
         res["verdict"] = v
